@@ -504,7 +504,95 @@ fn trans_strategy() -> impl Strategy<Value = (Vec<(Trans, bool)>, bool)> {
     (proptest::collection::vec((t, proptest::bool::weighted(0.75)), 2..8), any::<bool>())
 }
 
+/// "A failed save loses at most that one learned choice": a word is learned and stored, the user directory
+/// breaks, the same word is re-learned with another candidate (the save fails silently).  The live context must go
+/// on preselecting one of the two choices for it (never fall back to "nothing learned"), another learned word must
+/// be untouched, and after the directory is repaired a new context must still find the choice stored earlier.
+fn relearn_under_fault(run: &Run) {
+    let words = ["kotha", "sesh", "onno", "amar", "park", "din"];
+    let mut items = vec![];
+    for w in 0..words.len() {
+        for fault in 0..2u8 {
+            for (i1, i2) in [(1usize, 2usize), (2, 1), (1, 0), (2, 0)] {
+                items.push((w, fault, i1, i2));
+            }
+        }
+    }
+    run.exhaustive("re-learn-a-stored-word-while-the-save-fails", &items, |_| (), |&(w, fault, i1, i2), st, _| relearn_case(words[w], words[(w + 1) % words.len()], fault, i1, i2, st));
+    run.require_label("re-learned-under-a-failing-save", 20);
+}
+
+fn relearn_case(word: &str, other: &str, fault: u8, i1: usize, i2: usize, st: &mut Stats) -> Result<(), Failure> {
+    let case = || json!({"relearn_under_fault": {"word": word, "other": other, "fault": fault, "first_index": i1, "second_index": i2}});
+    let pf = |p: PanicInfo| Failure::new(format!("relearn:{}", panic_kind(&p)), p.to_string(), case());
+    let fail = |kind: &str, msg: String| Failure::new(kind, msg, case());
+    let sb = Sandbox::new();
+    let opts = Opts::parse("s");
+    let ctx = Ctx::new_at(opts, sb.base()).map_err(pf)?;
+    let learn = |ctx: &Ctx, w: &str, i: usize| -> Result<Option<(String, Vec<String>)>, Failure> {
+        let l = ctx.type_frontend(w).map_err(pf)?.unwrap();
+        if l.lonely || i >= l.cands.len() || i == l.sel {
+            ctx.finish().map_err(pf)?;
+            return Ok(None);
+        }
+        ctx.commit(i).map_err(pf)?;
+        Ok(Some((l.cands[i].clone(), l.cands)))
+    };
+    let Some((c_other, _)) = learn(&ctx, other, 1)? else { return Ok(()) };
+    let Some((c1, _)) = learn(&ctx, word, i1)? else { return Ok(()) };
+    if sb.parsed_selections().map(|m| m.get(word) != Some(&c1)).unwrap_or(true) {
+        return Err(fail("learned-choice-not-stored", format!("{word:?} -> {c1:?} committed in a healthy directory; the store is {:?}", sb.parsed_selections())));
+    }
+    // break the directory
+    let away = sb.base().join("moved-away");
+    std::fs::rename(sb.user_dir(), &away).expect("rename away");
+    if fault == 1 {
+        std::fs::write(sb.user_dir(), b"not a directory").expect("file in place of the directory");
+    }
+    let Some((c2, _)) = learn(&ctx, word, i2)? else {
+        return Ok(());
+    };
+    st.label("re-learned-under-a-failing-save");
+    let preselected = |ctx: &Ctx, w: &str| -> Result<String, Failure> {
+        let l = ctx.type_frontend(w).map_err(pf)?.unwrap();
+        ctx.finish().map_err(pf)?;
+        Ok(l.cands.get(l.sel).cloned().unwrap_or_default())
+    };
+    let now = preselected(&ctx, word)?;
+    st.evals(1);
+    if now != c1 && now != c2 {
+        return Err(fail(
+            "failed-save-loses-more-than-one-choice",
+            format!("{word:?}: {c1:?} stored, then {c2:?} committed while the save failed; the live context now preselects {now:?} - neither of the two"),
+        ));
+    }
+    let o = preselected(&ctx, other)?;
+    if o != c_other {
+        return Err(fail("failed-save-loses-more-than-one-choice", format!("after the failed save for {word:?} the live context preselects {o:?} for {other:?}, learned as {c_other:?}")));
+    }
+    // repair, restart
+    if fault == 1 {
+        std::fs::remove_file(sb.user_dir()).expect("remove the file");
+    }
+    std::fs::rename(&away, sb.user_dir()).expect("rename back");
+    let ctx2 = Ctx::new_at(opts, sb.base()).map_err(pf)?;
+    let later = preselected(&ctx2, word)?;
+    if later != c1 {
+        return Err(fail(
+            "failed-save-loses-more-than-one-choice",
+            format!("{word:?}: {c1:?} was stored before the failing save of {c2:?}; after the repair a new context preselects {later:?} (store {:?})", sb.parsed_selections()),
+        ));
+    }
+    let o2 = preselected(&ctx2, other)?;
+    if o2 != c_other {
+        return Err(fail("failed-save-loses-more-than-one-choice", format!("after the repair a new context preselects {o2:?} for {other:?}, learned as {c_other:?}")));
+    }
+    st.nontrivial(hash_of(&(word, fault, i1, i2)), || json!({"word": word, "stored": c1, "committed_while_the_save_failed": c2, "fault": fault}));
+    Ok(())
+}
+
 pub fn run(run: &Run) {
+    relearn_under_fault(run);
     let n_hist = run.tier.pick(40, 600);
     let stores = collect_stores(n_hist, run.seed);
     run.stats.lock().unwrap().count("distinct-engine-written-stores", stores.len() as u64);
@@ -586,6 +674,11 @@ pub fn run(run: &Run) {
 }
 
 pub fn replay(_run: &Run, case: &Value) -> Result<(), Failure> {
+    if let Some(r) = case.get("relearn_under_fault") {
+        let g = |k: &str| r[k].as_str().unwrap_or_default().to_string();
+        let n = |k: &str| r[k].as_u64().unwrap_or(0) as usize;
+        return relearn_case(&g("word"), &g("other"), n("fault") as u8, n("first_index"), n("second_index"), &mut Stats::new());
+    }
     if case.get("transitions").is_some() {
         let steps: Vec<(Trans, bool)> = serde_json::from_value(case["transitions"].clone()).unwrap_or_default();
         return check_transitions(&steps, case["english"].as_bool().unwrap_or(false), &mut Stats::new());
